@@ -622,7 +622,8 @@ class TV:
             elif at[0] == "end-verdict":
                 tgt = z3.simplify(a["st"][("m", "state")])
                 acc = z3.is_int_value(tgt) and self.spec.is_accepting(self.c.cctx.dfa.states[tgt.as_long()])
-                if not acc and z3.is_int_value(tgt) and not a.get("overridden") and self.passes_through(self.c.cctx.dfa.states[tgt.as_long()]):
+                if (not acc and z3.is_int_value(tgt) and not a.get("overridden") and self.passes_through(self.c.cctx.dfa.states[tgt.as_long()])
+                        and not self.end_consumable_again(self.c.cctx.dfa.states[tgt.as_long()])):
                     # end-of-input has been consumed; states that never look at the input (conditions, pure fall-throughs) still have to run
                     self.check_continue(t2, i, p, hyp, consumed_expected=0, inval0=inval0, start0=start0, end0=end0, bs=bs, fam="end", ctx=ctx)
                     continue
@@ -649,6 +650,33 @@ class TV:
             return True
         ts = list(state.transitions)
         return bool(ts) and all(t.is_fallthrough and t.target is ts[0].target and not t.actions for t in ts) and any(v is n.DFTransition.Else for t in ts for v in t.on_values)
+
+    def end_consumable_again(self, state):
+        """following only non-consuming moves from `state`, can end-of-input meet a transition that consumes it?  (then the parse cannot be
+        completed by this end-of-input: going on would let one end-of-input be matched twice, or for ever)"""
+        n = self.nmfu
+        End = n.DFTransition.End
+        seen, work = set(), [state]
+        states = set(id(x) for x in self.c.cctx.dfa.states)
+        while work:
+            q = work.pop()
+            if q is None or id(q) in seen or id(q) not in states:
+                continue
+            seen.add(id(q))
+            if isinstance(q, n.DFConditionPoint):
+                ts = list(q.transitions)
+            else:
+                t = self.spec.lookup(q, End)
+                if t is None:
+                    continue
+                if not t.is_fallthrough:
+                    return True
+                ts = [t]
+            for t in ts:
+                work.append(t.target)
+                for a in t.actions:
+                    work.extend(a.get_target_override_targets())
+        return False
 
     def witness_from(self, hyp):
         if self.check(hyp) == "sat":
